@@ -39,8 +39,15 @@ def suite_recv(ctx):
     n = 150 if ctx.thorough else 50
     for t in range(n):
         hs = [rng.integers(1, 9, int(rng.integers(4, 8)))/2.0 for _ in range(3)]
-        grid = emg3d.TensorMesh(hs, tuple(float(rng.integers(-4, 3))
-                                          for _ in range(3)))
+        far = t % 5 == 4
+        if far:
+            # UTM-like coordinates, cells of 10 .. 80 m
+            hs = [h*20.0 for h in hs]
+            grid = emg3d.TensorMesh(hs, (437250., 6731400., -2450.))
+        else:
+            grid = emg3d.TensorMesh(hs, tuple(float(rng.integers(-4, 3))
+                                              for _ in range(3)))
+        rtol = 1e-7 if far else 1e-13
         cplx = bool(t % 2)
         f = emg3d.Field(grid, frequency=1.0 if cplx else -1.0)
         f.field[:] = rng.integers(-16, 17, f.field.size)/4.0
@@ -67,7 +74,7 @@ def suite_recv(ctx):
         # transpose identity on the real code
         ip = complex(np.sum(pv.field*f.field))
         scale = np.abs(f.field).max()
-        if not (np.isnan(got.real) or abs(got - ip) <= 1e-13*scale):
+        if not (np.isnan(got.real) or abs(got - ip) <= rtol*scale):
             ctx.violation(
                 'receiver-not-transpose-of-point-source',
                 f'get_receiver at {(*pos, az, el)} gives {got}, <point '
@@ -82,7 +89,7 @@ def suite_recv(ctx):
             lines.append(f"recv | {c10.nodes_line(grid)} | {flds[0]} | "
                          f"{flds[1]} | {flds[2]} | {fq(pos[0])} {fq(pos[1])} "
                          f"{fq(pos[2])} {fq(d[0])} {fq(d[1])} {fq(d[2])}")
-        reals.append((got, cplx, (*pos, az, el), scale))
+        reals.append((got, cplx, (*pos, az, el), scale*(rtol/1e-13)))
         ctx.count(key=('recv', kind, az, el, grid.shape_cells))
     # several receivers in one call: every value is that of the receiver
     # alone (orientations that cancel in the sum included)
